@@ -133,15 +133,50 @@ def _can_fall_through(stmts):
   return True
 
 
-def _no_fall(stmts):
-  """True if control never runs off the end of `stmts` (ends in return / raise on every branch)."""
+_NORETURN = set()     # simple names of the module's functions that always raise (set per module by normalize())
+
+
+def _noreturn_names(tree):
+  """Functions / methods whose every path ends in `raise` (no return anywhere): calling one ends the path."""
+  out = set()
+  for n in ast.walk(tree):
+    if isinstance(n, ast.FunctionDef) and not any(isinstance(x, (ast.Yield, ast.YieldFrom)) for x in ast.walk(n)):
+      body = n.body
+      if _count_returns(body) == 0 and body and _ends_in_raise(body):
+        out.add(n.name)
+  return out
+
+
+def _ends_in_raise(stmts):
   if not stmts:
     return False
   last = stmts[-1]
-  if isinstance(last, (ast.Return, ast.Raise)):
+  if isinstance(last, ast.Raise):
+    return True
+  if isinstance(last, ast.If):
+    return bool(last.orelse) and _ends_in_raise(last.body) and _ends_in_raise(last.orelse)
+  return False
+
+
+def _is_noreturn_call(st):
+  if isinstance(st, ast.Expr) and isinstance(st.value, ast.Call):
+    f = st.value.func
+    name = f.id if isinstance(f, ast.Name) else (f.attr if isinstance(f, ast.Attribute) and isinstance(f.value, ast.Name) and f.value.id in ('self', 'cls') else None)
+    return name in _NORETURN
+  return False
+
+
+def _no_fall(stmts):
+  """True if control never runs off the end of `stmts` (ends in return / raise / a call that always raises, on every branch)."""
+  if not stmts:
+    return False
+  last = stmts[-1]
+  if isinstance(last, (ast.Return, ast.Raise)) or _is_noreturn_call(last):
     return True
   if isinstance(last, ast.If):
     return bool(last.orelse) and _no_fall(last.body) and _no_fall(last.orelse)
+  if isinstance(last, ast.Try) and not last.orelse and not last.finalbody:
+    return _no_fall(last.body) and all(_no_fall(h.body) for h in last.handlers)
   return False
 
 
@@ -176,6 +211,9 @@ def _tail_returns_only(stmts):
       n += 1
     elif isinstance(last, ast.If):
       n += tails(last.body) + tails(last.orelse)
+    elif isinstance(last, ast.Try) and not last.orelse and not last.finalbody:
+      # `try: ...; return E  except X: ...`: the value is bound inside the try instead, nothing follows the statement
+      n += tails(last.body) + sum(tails(h.body) for h in last.handlers)
     return n
   return tails(stmts) == _count_returns(stmts)
 
@@ -217,11 +255,16 @@ def _close_fallthrough(stmts, target):
   if not stmts:
     return [ast.Return(value=ast.Constant(value=None))]
   last = stmts[-1]
-  if isinstance(last, (ast.Return, ast.Raise)):
+  if isinstance(last, (ast.Return, ast.Raise)) or _is_noreturn_call(last):
     return stmts
   if isinstance(last, ast.If) and last.orelse:
     last.body = _close_fallthrough(last.body, target)
     last.orelse = _close_fallthrough(last.orelse, target)
+    return stmts
+  if isinstance(last, ast.Try) and not last.orelse and not last.finalbody:
+    last.body = _close_fallthrough(last.body, target)
+    for h in last.handlers:
+      h.body = _close_fallthrough(h.body, target)
     return stmts
   return stmts + [ast.Return(value=ast.Constant(value=None))]
 
@@ -3005,10 +3048,13 @@ def inline_expression_helpers(tree, modname, table=None):
       if q in ref_mod or not isinstance(fn, ast.FunctionDef):
         continue
       decs = [ast.unparse(d) for d in fn.decorator_list]
-      if any(d != 'staticmethod' for d in decs):
+      is_prop = decs == ['property']
+      if any(d != 'staticmethod' for d in decs) and not is_prop:
         continue
       a = fn.args
       if a.vararg or a.kwarg or a.kwonlyargs or a.posonlyargs:
+        continue
+      if is_prop and (len(a.args) != 1 or not isinstance(parents.get(id(fn)), ast.ClassDef)):
         continue
       body = list(fn.body)
       if body and isinstance(body[0], ast.Expr) and isinstance(body[0].value, ast.Constant) and isinstance(body[0].value.value, str):
@@ -3049,6 +3095,39 @@ def inline_expression_helpers(tree, modname, table=None):
       scope = owner if isinstance(owner, (ast.FunctionDef, ast.AsyncFunctionDef)) else tree
       sites = []
       other_refs = 0
+      if is_prop:
+        # a new read-only property: every `<name>.<prop>` load in the module stands for the expression
+        psites = []
+        for n in ast.walk(tree):
+          if n is fn or any(x is fn for x in _ancestors(n, parents)):
+            continue
+          if isinstance(n, ast.Attribute) and n.attr == fn.name:
+            if isinstance(n.ctx, ast.Load) and isinstance(n.value, ast.Name):
+              psites.append(n)
+            else:
+              other_refs += 1
+          elif isinstance(n, ast.Constant) and n.value == fn.name:
+            other_refs += 1      # getattr(x, 'name') and the like
+        if not psites or other_refs or free:
+          continue
+        for n in psites:
+          rep = _Subst({selfname: n.value}, {}).visit(copy.deepcopy(expr))
+          ast.copy_location(rep, n)
+          par = parents.get(id(n))
+          for fld, v in ast.iter_fields(par):
+            if v is n:
+              setattr(par, fld, rep)
+            elif isinstance(v, list):
+              for j, x in enumerate(v):
+                if x is n:
+                  v[j] = rep
+        owner.body.remove(fn)
+        if not owner.body:
+          owner.body.append(ast.Pass())
+        ast.fix_missing_locations(tree)
+        count += 1
+        done = True
+        break
       for n in ast.walk(scope):
         if n is fn or any(x is fn for x in _ancestors(n, parents)):
           continue
@@ -3375,6 +3454,8 @@ def post_canon(tree, modname):
 
 def normalize(tree, modname):
   """Returns (helpers_inlined, idioms_rewritten)."""
+  global _NORETURN
+  _NORETURN = _noreturn_names(tree)
   if os.environ.get('GINSA_NO_NORMALIZE'):
     # debugging switch: structural rewrites off; the spelling idioms stay on because some rules are written against them
     b = idioms(tree)
